@@ -4,10 +4,13 @@
 (* position.  The characteristic table holds a DISTINCT row for every (id, step).                                 *)
 (* REQUIRED: the effective ratio / angle / vk / vkr of transformer t is the row <<id_t, pos_t>> of the table,      *)
 (* independent of every other transformer; without dep the transformer's own tap changer data apply.             *)
-(* Second family (Init3, TapTable3W.cfg): one three-winding transformer W plus a second 3W / a 2W transformer that  *)
-(* may share W's characteristic id at a different step; definitions, table rule and oracles in TapTableDef.tla.   *)
+(* Second family (Init3, TapTable3W.cfg): one three-winding transformer W (dep, id, tap position, tap side hv / mv  *)
+(* / lv, tap at the star point or not, tap changer type) plus a second 3W or a 2W transformer that may share W's    *)
+(* characteristic id at a different step.  Table rule, and which members use the self-consistency oracle ("lin")   *)
+(* and which the row-entered-directly oracle ("off"): TapTableDef.tla.  In that family p stands for tap_pos = p - 1 *)
+(* with tap_neutral = 1.                                                                                           *)
 EXTENDS Integers, FiniteSets, TLC, TapTableDef
-CONSTANTS Ids, Positions      \* a position p stands for tap_pos = p - 2 (cfg files cannot hold negative numbers)
+CONSTANTS Ids, Positions      \* 2W family: a position p stands for tap_pos = p - 2 (cfg files cannot hold negative numbers)
 T == 1..3
 VARIABLES cfg, eff
 Cfgs == [T -> [dep : BOOLEAN, id : Ids, pos : Positions]]
